@@ -323,6 +323,10 @@ pub fn run(args: &[String]) {
             }
         }
         case.pair(format!("ideal {}", out.ops.join(" | ")), out.results.join(" "));
+        // the descriptor-level reading (`Unix.run`) must give the same answers for the OS transports, and the program
+        // must be valid in the sense of the refinement theorem (embeds only receivers it holds, each once)
+        #[cfg(not(feature = "force-inprocess"))]
+        case.pair(format!("unix {}", out.ops.join(" | ")), format!("valid {}", out.results.join(" ")));
         #[cfg(not(feature = "force-inprocess"))]
         case.pair(
             format!("ledger {}", out.ledger_ops.join(" | ")),
